@@ -18,8 +18,8 @@ from mc.params import fill, pat_tensor
 PROPERTY = "C07"
 RULE = (
     "7 coupling classes x feature counts 2..5 (UMNN: 2..3) x EVERY non-trivial subset as mask (2^n - 2) in the default encoding; for 3 features additionally every mask x "
-    "encodings {0/1 ints, -1/+1 floats, -2.5/0.5 floats, uint8 tensor, tuple} and (<=1 deviation) {image inputs, context, unconditional transform, box spline without tails}; "
-    "both directions; parameter pattern pat1 (conditioner outputs capped) and init. Non-trivial = every case (the mask has both kinds of features by construction)."
+    "encodings {0/1 ints, -1/+1 floats, -2.5/0.5 floats, uint8 tensor, tuple} and (<=1 deviation) {image inputs, context, unconditional transform, box spline without tails, conv/residual conditioners with dropout or batch-norm, MLP conditioner, general scale activation}; "
+    "both directions; parameter pattern pat1 (conditioner outputs capped), init, and the conditioner's last bias at -300 / +300; every call under its own RNG state. Non-trivial = every case (the mask has both kinds of features by construction)."
 )
 ASSUMPTIONS = [
     "mask semantics as documented: entry > 0 = transformed, <= 0 = identity (the check derives the index sets from the mask values itself, not from the module's buffers)",
@@ -62,6 +62,8 @@ def make_cfg(cls, bits, enc, dev):
         cfg["dims"] = dev
     elif dev in ("net_do", "net_mlp", "net_bn"):
         cfg["net"] = {"net_do": "resnet_do", "net_mlp": "mlp", "net_bn": "resnet_bn"}[dev]
+    elif dev == "general" and "scale_act" in cfg:
+        cfg["scale_act"] = "general"
     elif dev == "context":
         cfg["context"] = True
     elif dev == "uncond" and "uncond" in cfg:
@@ -92,10 +94,21 @@ def check_case(case):
         if len(m.identity_features) != len(ident) or len(m.transform_features) != len(trans):
             V("construct", "mask misinterpreted", "mask %r: layer has %d identity / %d transformed features, the documented rule (entry > 0 = transformed) gives %d / %d" % (cfg["mask"], len(m.identity_features), len(m.transform_features), len(ident), len(trans)))
             return out
-        pat = C.pattern_for(pname, seed)
+        pat = C.pattern_for("init" if pname in ("biasneg", "biaspos") else pname, seed)
         fill(m, pat)
         if pat[0] == "pat":
             C.cap_conditioner(s, {**cfg, "mask": [int(b) for b in bits]}, m)
+        if pname in ("biasneg", "biaspos"):
+            # an extreme but legal conditioner: its last layer's bias at -300 / +300 (every unconstrained scale, width, height and
+            # derivative far out): the activation floors / caps have to keep each transformed feature strictly monotone
+            net = m.transform_net
+            last = getattr(net, "final_layer", None)
+            if last is None and hasattr(net, "net"):
+                last = getattr(net.net, "_output_layer", None)
+            if last is None or last.bias is None:
+                return out
+            with torch.no_grad():
+                last.bias.fill_(-300.0 if pname == "biasneg" else 300.0)
     except Exception as e:
         V("construct", "constructor raises %s" % type(e).__name__, "mask %r: %s: %s" % (cfg["mask"], type(e).__name__, str(e)[:120]))
         return out
@@ -242,6 +255,12 @@ def gen_cases(cls, tier, seed):
             for pname in pats:
                 yield {"cls": cls, "bits": bits, "enc": "int01", "dev": "none", "pattern": pname, "seed": seed}
     for bits in all_masks(3):
+        if cls != "UMNNCouplingTransform":
+            for dev in ("none", "general"):
+                if dev == "general" and "scale_act" not in C.SUBJECTS[cls].axes:
+                    continue
+                for pname in ("biasneg", "biaspos"):
+                    yield {"cls": cls, "bits": bits, "enc": "int01", "dev": dev, "pattern": pname, "seed": seed}
         for enc in ENC[1:]:
             yield {"cls": cls, "bits": bits, "enc": enc, "dev": "none", "pattern": "pat1", "seed": seed}
         for dev in ("4d", "context", "uncond", "box", "4d_do", "4d_bn", "net_do", "net_mlp", "net_bn"):
